@@ -214,6 +214,23 @@ fn run<C: CI>(ctx: &mut Ctx) {
             ctx.nontrivial(fp(&[b"txt", name.as_bytes(), &x, &[i as u8]]));
         }
     });
+    ctx.group(&format!("{name}/exact-fit"), |ctx| {
+        // both operands in allocations without spare words, windows ending at the end of their allocation
+        // (whole-word lengths, aligned / unaligned starts): comparisons and hashing must not look past the content
+        let cases = exact_fit_cases_for(ctx, a.bits);
+        for (n, pad) in cases {
+            if ctx.over() {
+                break;
+            }
+            let _fit = exact_fit_mode();
+            let x = cover_codes(&mut ctx.rng, a, n);
+            for (kind, y) in variants(ctx, a, &x) {
+                pair::<C>(ctx, &x, &y, kind, pad, pad);
+                pair::<C>(ctx, &y, &x, kind, 0, pad);
+            }
+            cell!(ctx, "{name}/exact-fit/{}/pad{}", len_class(a.bits, n), if pad == 0 { "0" } else if (pad * a.bits as usize) % 64 == 0 { "word" } else { "unaligned" });
+        }
+    });
     ctx.group(&format!("{name}/hashmap"), |ctx| {
         let nkeys = ctx.n(120, 1500, 3);
         let mut modelmap: BTreeMap<Vec<u8>, usize> = BTreeMap::new();
@@ -238,6 +255,10 @@ fn run<C: CI>(ctx: &mut Ctx) {
             weak_map.insert(mk::<C>(&key), i);
         }
         let keys: Vec<Vec<u8>> = modelmap.keys().cloned().collect();
+        let key_seqs: Vec<(Seq<C>, usize)> = modelmap.iter().map(|(k, v)| (mk::<C>(k), *v)).collect();
+        let ref_map: HashMap<&Seq<C>, usize> = key_seqs.iter().map(|(k, v)| (k, *v)).collect();
+        // the default value is the empty sequence
+        check!(ctx, Seq::<C>::default() == Seq::<C>::new() && Seq::<C>::default().is_empty() && hash_stream(&Seq::<C>::default()) == hash_stream(&mk::<C>(&[])), format!("default|{name}|not-empty"), "{name}: Seq::default() is not the empty sequence");
         let mut distinct_orders = 0usize;
         for (qi, key) in keys.iter().enumerate() {
             if ctx.over() {
@@ -263,6 +284,12 @@ fn run<C: CI>(ctx: &mut Ctx) {
                 check!(ctx, gotw == want, format!("HashMap<Seq>.get(&SeqSlice)|{name}|colliding-hasher"), "{name}: lookup (colliding hasher) of slice {:?}@pad{pad} gives {:?}, model {:?}", a.text(&q), gotw, want);
                 let owned = mk::<C>(&q);
                 check!(ctx, std_map.get(&owned).copied() == want, format!("HashMap<Seq>.get(&Seq)|{name}|std-hasher"), "{name}: lookup of owned {:?} wrong", a.text(&q));
+                // a map keyed by references to owned sequences is searched by a borrowed slice too (Borrow for &Seq)
+                let gotr = ref_map.get(s).copied();
+                check!(ctx, gotr == want, format!("HashMap<&Seq>.get(&SeqSlice)|{name}|std-hasher"), "{name}: lookup of slice {:?}@pad{pad} in a map keyed by &Seq gives {:?}, model {:?}", a.text(&q), gotr, want);
+                // AsRef views compare and hash like the value itself
+                let (ar1, ar2): (&SeqSlice<C>, &SeqSlice<C>) = (AsRef::<SeqSlice<C>>::as_ref(s), AsRef::<SeqSlice<C>>::as_ref(&owned));
+                check!(ctx, ar1 == ar2 && ar1 == s && hash_stream(ar1) == hash_stream(&owned), format!("as_ref|{name}|differs"), "{name}: AsRef views of {:?} differ from the value", a.text(&q));
                 cell!(ctx, "{name}/hashmap/{}/{}", if want.is_some() { "hit" } else { "miss" }, len_class(a.bits, q.len()));
                 ctx.nontrivial(fp(&[b"map", name.as_bytes(), &q, &[pad as u8]]));
                 distinct_orders += 1;
@@ -276,7 +303,7 @@ fn run<C: CI>(ctx: &mut Ctx) {
 fn kmer_case<C: CI, const K: usize, S: KS>(ctx: &mut Ctx) {
     let a = C::alpha();
     let name = C::NAME;
-    if ctx.lite && !ctx.mine(K) {
+    if ctx.lite && !ctx.mine_group(K) {
         return;
     }
     let noff = n_offsets(a.bits);
@@ -286,7 +313,12 @@ fn kmer_case<C: CI, const K: usize, S: KS>(ctx: &mut Ctx) {
                 break;
             }
             let x = if r == 1 { vec![*a.codes().iter().max().unwrap(); K] } else { rand_codes(&mut ctx.rng, a, K) };
-            let p1 = ctx.rng.below(noff);
+            // rounds 0, 2, 3: the source window is the tail of an allocation without spare words, starting at symbol 0,
+            // one word in, or two words in (also varies the alignment of the first word); otherwise a random offset
+            let w = exact_fit_cases(a.bits)[0].0;
+            let fit_pad = match r { 0 => Some(0), 2 => Some(w), 3 => Some(2 * w), _ => None };
+            let _fit = fit_pad.map(|_| exact_fit_mode());
+            let p1 = fit_pad.unwrap_or_else(|| ctx.rng.below(noff));
             let px = Padded::<C>::new(&mut ctx.rng, p1, &x, 2);
             let ax = px.slice();
             let kx = match observe(|| Kmer::<C, K, S>::try_from(ax)) {
@@ -332,7 +364,7 @@ fn kmer_case<C: CI, const K: usize, S: KS>(ctx: &mut Ctx) {
 fn kmer_usize<C: CI, const K: usize, S: KS>(ctx: &mut Ctx) {
     let a = C::alpha();
     let name = C::NAME;
-    if ctx.lite && !ctx.mine(K + 1) {
+    if ctx.lite && !ctx.mine_group(K + 1) {
         return;
     }
     ctx.group(&format!("{name}/kmer-usize-pairings/K{K}"), |ctx| {
@@ -442,12 +474,25 @@ fn statics(ctx: &mut Ctx) {
 
 fn main() {
     run_main("C02", |ctx| {
+        ctx.first_use_race(3, |t| {
+            let d: Seq<Dna> = "ACGTTGCAACGTACGTACGTACGTACGTACGTTTGAC".try_into().unwrap();
+            let i: Seq<Iupac> = "ACGTRYSWKMBDHVN-ACGT".try_into().unwrap();
+            let m: Seq<Amino> = "MAGICLIFEQRSTVWY*".try_into().unwrap();
+            let k: Kmer<Dna, 8> = Kmer::try_from(&d[t..t + 8]).unwrap();
+            let k2: Kmer<Iupac, 20, u128> = Kmer::try_from(&i[..]).unwrap();
+            (
+                (d[t..] == d[t..], d[t..t + 8] == d[8 + t..16 + t], d == d.clone(), d[..] == "ACGT", k == d[t..t + 8], k2 == i[..]),
+                (hash_stream(&d[t..]), hash_stream(&k), hash_stream(&i), hash_stream(&m[t..]), hash_stream(&k2)),
+                (default_hash(&d), default_hash(&m)),
+            )
+        });
         for_each_codec!(run, ctx);
         for_each_codec!(alt_code_contents, ctx);
         statics(ctx);
         if ctx.lite {
             for_each_k_small!(kmer_case, usize, ctx);
             for_each_k_small!(kmer_case, u128, ctx);
+            for_each_k_small128!(kmer_case, ctx);
             for_each_k_small!(kmer_usize, usize, ctx);
         } else {
             for_each_k64!(kmer_case, usize, ctx);
